@@ -116,6 +116,8 @@ type VC struct {
 	entry    *State
 	scaled   map[int][]string // index terms scaled by an element size (see scaleReg)
 	stable   []modTarget // cells assumed unchanged by calls of unknown effect ('stable' contract lines)
+	addrRefs []string // objects whose address was taken as an integer (pairwise disjoint extents)
+	goalHints map[string][]string // instantiation terms contributed by the goal being built (cleared per obligation)
 	exhaustOnly bool // this VC only checks that the contract-level case splits cover the preconditions
 }
 
@@ -191,6 +193,7 @@ func (vc *VC) oblige(kind, note, reach, goal string, tags ...string) *Obligation
 		return nil
 	}
 	extra := vc.instantiateFor(full)
+	vc.goalHints = nil
 	idx := vc.counts[kind]
 	vc.counts[kind]++
 	o := &Obligation{
